@@ -117,7 +117,7 @@ def q(s, always):
     return s
 
 
-def hand_write(content, path, eol, bom, quote_all):
+def hand_write(content, path, eol, bom, quote_all, iso_min_start=False):
     cols = list(DEFAULT_FIELDS)
     customs = []
     for c in content.custom:
@@ -140,7 +140,9 @@ def hand_write(content, path, eol, bom, quote_all):
                '' if content.par[i] is None else str(content.ids[content.par[i]]),
                ';'.join(str(content.ids[p]) for p, s in content.links if s == i)]
         if has_ms:
-            row.append(d(f.get('min_start')))
+            ms = f.get('min_start')
+            # the version before fix 704821e wrote this column as str(datetime); the reader still accepts that form
+            row.append(d(ms) if not iso_min_start else ('' if ms is None else str(ms)))
         row += [content.custom[i].get(k) for k in customs]
         lines.append(';'.join(q(c, quote_all) for c in row))
     data = eol.join(lines) + eol
@@ -246,6 +248,23 @@ def check_one(layer, c, tmp, acc):
     d = diff(exp, meaning_of_wbs(r1))
     if d:
         acc.violation('C13', f'csv/roundtrip-{d[0]}/{cls()}', 'read_csv(write_csv(w)): ' + d[1], case)
+    # the written file has the documented layout: the ten fixed columns in order, then one column per custom attribute
+    # (and min_start, which is a task field that travels as an extra column), one row per task
+    try:
+        import csv as _csv
+        with open(f1, newline='', encoding='utf-8') as fh:
+            rows = list(_csv.reader(fh, delimiter=';'))
+        header = rows[0]
+        customs = set()
+        for cu in c.custom:
+            customs |= set(cu)
+        extra = set(header[10:])
+        if header[:10] != DEFAULT_FIELDS or len(set(header)) != len(header) or not (customs <= extra <= customs | {'min_start'}):
+            acc.violation('C13', f'csv/written-header/{cls()}', f'written header {header}, expected {DEFAULT_FIELDS} + custom {sorted(customs)}', case)
+        if len(rows) != 1 + len(c.par):
+            acc.violation('C13', f'csv/written-row-count/{cls()}', f'{len(rows) - 1} rows for {len(c.par)} tasks', case)
+    except Exception as ex:  # noqa
+        acc.violation('C13', f'csv/written-file-unreadable-{type(ex).__name__}/{cls()}', f'the written file is not a ;-separated CSV: {ex}', case)
     try:
         write_csv(r1, f2)
         r2 = read_csv(f2)
@@ -288,6 +307,16 @@ def check_one(layer, c, tmp, acc):
                 acc.violation('C13', f'csv/stale-after-edit-{d[0]}/{cls()}', 'second write_csv after an edit: ' + d[1], case)
         except Exception as ex:  # noqa
             acc.violation('C13', f'csv/rewrite-raised-{type(ex).__name__}/{cls()}', f'second write raised {ex}', case)
+    if any('min_start' in f for f in c.fields):
+        h = os.path.join(tmp, 'h.csv')
+        hand_write(c, h, '\r\n', False, False, iso_min_start=True)
+        acc.count('hand_written_files')
+        try:
+            d = diff(exp, meaning_of_wbs(read_csv(h)))
+            if d:
+                acc.violation('C13', f'csv/earlier-version-min_start-{d[0]}/{cls()}', 'file with min_start as written by the earlier version: ' + d[1], case)
+        except Exception as ex:  # noqa
+            acc.violation('C13', f'csv/earlier-version-min_start-raised-{type(ex).__name__}/{cls()}', f'read_csv raised {ex}', case)
     nontrivial = layer != 'structure' or any(p is not None for p in c.par) or c.links
     if nontrivial:
         acc.count('nontrivial')
